@@ -15,8 +15,11 @@
     5. the checked path of `lc_check`: the returned gates, run by the verified tableau semantics on the graph state of A,
        give a valid tableau whose stabilizer group contains every generator of the graph state of B with sign +.
   Refuted, kernel-checked (known finding D14): completeness of the pair-sum shortcut for dimension ≥ 5.
-  Cited, not proved (Tier C): a valid `Q` exists iff the graphs are related by local complementations
-  (Van den Nest, Dehaene, De Moor, Phys. Rev. A 69, 022316); the R-matrix reduction of `lc_graph_operations` reaches I.
+    6. LC-equivalent graphs always admit a valid `Q` (one direction of Van den Nest's theorem, proved here), hence a `no`
+       on the full-rank / exhaustive paths means the graphs are in different LC orbits — with no appeal to the literature.
+  Cited, not proved (Tier C): a valid `Q` implies that the graphs are related by local complementations (the other
+  direction of Van den Nest, Dehaene, De Moor, Phys. Rev. A 69, 022316); the R-matrix reduction of `lc_graph_operations`
+  reaches I.
 -/
 import GraphiqModel.Proofs.LC
 namespace Graphiq.C09
@@ -128,6 +131,26 @@ theorem one_local_complementation_has_a_valid_clifford (n : Nat) (A : Adj) (v : 
 
 /-- two graphs are in the same LC orbit -/
 def SameOrbit (n : Nat) (A B : Adj) : Prop := ∃ vs : List Nat, (∀ v ∈ vs, v < n) ∧ EqAdj n (applySeq A vs) B
+
+/-- **every LC-equivalent pair admits a valid `Q`** — the elementary direction of Van den Nest's theorem, proved for every
+    n: one complementation is realised by the explicit `lcQ`, solutions compose blockwise (`Q₂Q₁`), determinants multiply -/
+theorem lc_equivalent_graphs_have_a_valid_clifford (n : Nat) (A B : Adj) (hA : Simple n A) (h : SameOrbit n A B) :
+    ∃ v : List Bool, (∀ j k, j < n → k < n → equation n A B (vget v) j k = false) ∧ isValidClifford n v = true := by
+  obtain ⟨vs, hvs, hB⟩ := h
+  exact same_orbit_has_valid_Q_list n A B vs hA hvs hB
+
+/-- **a `no` taken on the full-rank shortcut or after the exhaustive search is right, with no appeal to the literature**:
+    the two graphs are not related by any sequence of local complementations -/
+theorem no_means_not_lc_equivalent (a b : BMat) (mode : Mode) (draws : List Bool) (out : EqOut)
+    (hn : 0 < a.r) (hA : Simple a.r a.f) (e : isLcEquivalent a b mode draws = .ok out) (hsol : out.sol = none)
+    (hp : out.path = "all-combinations" ∨ out.path = "full-rank") : ¬ SameOrbit a.r a.f b.f := by
+  intro h
+  obtain ⟨v, hv, hval⟩ := lc_equivalent_graphs_have_a_valid_clifford a.r a.f b.f hA h
+  have : isValidClifford a.r v = false := hp.elim
+    (fun hp1 => no_is_exhaustive_for_small_dimension a b mode draws out hn e hsol hp1 v hv)
+    (fun hp2 => no_is_right_on_full_rank a b mode draws out hn e hp2 v hv)
+  rw [this] at hval
+  exact absurd hval (by decide)
 
 /-- the full decision property as worded: the test answers yes exactly when one graph is reachable from the other by
     local complementations -/
